@@ -153,9 +153,9 @@ func (x *Exec) evalConversion(n *ast.CallExpr, to types.Type, st *State) (Val, *
 		s := v.(Sl)
 		n2 := c.fresh("str", SStr)
 		c.usesStr = true
-		c.assumeDef( tEq(app("slen", n2), s.Len))
+		c.assumeDef(tEq(app("slen", n2), s.Len))
 		arr := s.Arr.(Sc).T
-		c.assumeDef( tForall([][2]string{{"i!v", SInt}},
+		c.assumeDef(tForall([][2]string{{"i!v", SInt}},
 			tImp(tAnd(tLe("0", "i!v"), tLt("i!v", s.Len)), tEq(app("sat", n2, "i!v"), tSel(arr, tAdd(s.Off, "i!v")))),
 			app("sat", n2, "i!v")))
 		return Sc{n2, SStr}, st
@@ -172,10 +172,10 @@ func (x *Exec) evalConversion(n *ast.CallExpr, to types.Type, st *State) (Val, *
 		}
 		s := v.(Sc)
 		arr := c.fresh("bytes", arrSort(SInt, SInt))
-		c.assumeDef( tForall([][2]string{{"i!v", SInt}},
+		c.assumeDef(tForall([][2]string{{"i!v", SInt}},
 			tImp(tAnd(tLe("0", "i!v"), tLt("i!v", app("slen", s.T))), tEq(tSel(arr, "i!v"), app("sat", s.T, "i!v"))),
 			tSel(arr, "i!v")))
-		c.assumeDef( tForall([][2]string{{"i!v", SInt}}, tAnd(tLe("0", tSel(arr, "i!v")), tLe(tSel(arr, "i!v"), "255")), tSel(arr, "i!v")))
+		c.assumeDef(tForall([][2]string{{"i!v", SInt}}, tAnd(tLe("0", tSel(arr, "i!v")), tLe(tSel(arr, "i!v"), "255")), tSel(arr, "i!v")))
 		et := to.Underlying().(*types.Slice).Elem()
 		return Sl{Sc{arr, arrSort(SInt, SInt)}, "0", app("slen", s.T), tFalse, et}, st
 	case kt == kStr && kf == kInt:
@@ -183,8 +183,8 @@ func (x *Exec) evalConversion(n *ast.CallExpr, to types.Type, st *State) (Val, *
 		s := v.(Sc)
 		n2 := c.fresh("runestr", SStr)
 		c.usesStr = true
-		c.assumeDef( tImp(tAnd(tLe("0", s.T), tLt(s.T, "128")), tAnd(tEq(app("slen", n2), "1"), tEq(app("sat", n2, "0"), s.T))))
-		c.assumeDef( tImp(tAnd(tLe("128", s.T), tLt(s.T, "2048")), tAnd(tEq(app("slen", n2), "2"),
+		c.assumeDef(tImp(tAnd(tLe("0", s.T), tLt(s.T, "128")), tAnd(tEq(app("slen", n2), "1"), tEq(app("sat", n2, "0"), s.T))))
+		c.assumeDef(tImp(tAnd(tLe("128", s.T), tLt(s.T, "2048")), tAnd(tEq(app("slen", n2), "2"),
 			tEq(app("sat", n2, "0"), tAdd("192", app("div", s.T, "64"))), tEq(app("sat", n2, "1"), tAdd("128", app("mod", s.T, "64"))))))
 		return Sc{n2, SStr}, st
 	case kt == kf:
@@ -204,7 +204,7 @@ func (x *Exec) evalBuiltin(name string, n *ast.CallExpr, st *State) (Val, *State
 		case Sl:
 			if name == "cap" {
 				cp := c.fresh("cap", SInt)
-				c.assumeHere( tGe(cp, b.Len))
+				c.assumeHere(tGe(cp, b.Len))
 				return scInt(cp), st2
 			}
 			return scInt(b.Len), st2
@@ -306,7 +306,7 @@ func (x *Exec) evalAppend(n *ast.CallExpr, st *State) (Val, *State) {
 			src = s
 		case Sc: // append([]byte, string...)
 			arr := c.fresh("bytes", arrSort(SInt, SInt))
-			c.assumeDef( tForall([][2]string{{"i!v", SInt}}, tEq(tSel(arr, "i!v"), app("sat", s.T, "i!v")), tSel(arr, "i!v")))
+			c.assumeDef(tForall([][2]string{{"i!v", SInt}}, tEq(tSel(arr, "i!v"), app("sat", s.T, "i!v")), tSel(arr, "i!v")))
 			src = Sl{Sc{arr, arrSort(SInt, SInt)}, "0", app("slen", s.T), tFalse, et}
 		case nil:
 			return base, st
@@ -335,11 +335,11 @@ func (x *Exec) appendSeq(base, src Sl, hint string) Sl {
 	res.Nil = tAnd(base.Nil, tEq(src.Len, "0"))
 	end := c.define(hint+".end", SInt, tAdd(base.Off, base.Len))
 	zipLeaves(res.Arr, base.Arr, func(n, o string) {
-		c.assumeDef( tForall([][2]string{{"i!a", SInt}}, tImp(tLt("i!a", end), tEq(tSel(n, "i!a"), tSel(o, "i!a"))), tSel(n, "i!a")))
+		c.assumeDef(tForall([][2]string{{"i!a", SInt}}, tImp(tLt("i!a", end), tEq(tSel(n, "i!a"), tSel(o, "i!a"))), tSel(n, "i!a")))
 	})
 	delta := c.define(hint+".d", SInt, tSub(src.Off, end))
 	zipLeaves(res.Arr, src.Arr, func(n, o string) {
-		c.assumeDef( tForall([][2]string{{"i!a", SInt}},
+		c.assumeDef(tForall([][2]string{{"i!a", SInt}},
 			tImp(tAnd(tLe(end, "i!a"), tLt("i!a", tAdd(end, src.Len))), tEq(tSel(n, "i!a"), tSel(o, tAdd("i!a", delta)))), tSel(n, "i!a")))
 	})
 	return res
@@ -371,11 +371,11 @@ func (x *Exec) evalCopy(n *ast.CallExpr, st *State) (Val, *State) {
 	nd.Off, nd.Len, nd.Nil = dst.Off, dst.Len, dst.Nil
 	delta := c.define("copyd", SInt, tSub(src.Off, dst.Off))
 	zipLeaves(nd.Arr, dst.Arr, func(nn, o string) {
-		c.assumeDef( tForall([][2]string{{"i!a", SInt}},
+		c.assumeDef(tForall([][2]string{{"i!a", SInt}},
 			tImp(tOr(tLt("i!a", dst.Off), tGe("i!a", tAdd(dst.Off, cnt))), tEq(tSel(nn, "i!a"), tSel(o, "i!a"))), tSel(nn, "i!a")))
 	})
 	zipLeaves(nd.Arr, src.Arr, func(nn, o string) {
-		c.assumeDef( tForall([][2]string{{"i!a", SInt}},
+		c.assumeDef(tForall([][2]string{{"i!a", SInt}},
 			tImp(tAnd(tLe(dst.Off, "i!a"), tLt("i!a", tAdd(dst.Off, cnt))), tEq(tSel(nn, "i!a"), tSel(o, tAdd("i!a", delta)))), tSel(nn, "i!a")))
 	})
 	// write back into the destination l-value: dst expression is X[a:b] or a slice variable
@@ -931,7 +931,7 @@ func (x *Exec) traceOf(qn string, ysig *types.Signature, args []Val, recv Val, h
 	}
 	arr := c.freshVal(hint+".a", elemT, []string{SInt})
 	ln := c.fresh(hint+".len", SInt)
-	c.assumeHere( tGe(ln, "0"))
+	c.assumeHere(tGe(ln, "0"))
 	z := Sl{arr, "0", ln, tFalse, elemT}
 	if c.traces == nil {
 		c.traces = map[string]Sl{}
@@ -958,7 +958,7 @@ func (c *Ctx) normView(s Sl) Sl {
 	n := c.fresh("view", arr.S)
 	c.strLits[key] = n
 	off := c.define("viewoff", SInt, s.Off)
-	c.assumeDef( tForall([][2]string{{"i!h", SInt}}, tEq(tSel(n, "i!h"), tSel(arr.T, tAdd("i!h", off))), tSel(n, "i!h")))
-	c.assumeDef( tForall([][2]string{{"i!h", SInt}}, tEq(tSel(arr.T, "i!h"), tSel(n, tSub("i!h", off))), tSel(arr.T, "i!h")))
+	c.assumeDef(tForall([][2]string{{"i!h", SInt}}, tEq(tSel(n, "i!h"), tSel(arr.T, tAdd("i!h", off))), tSel(n, "i!h")))
+	c.assumeDef(tForall([][2]string{{"i!h", SInt}}, tEq(tSel(arr.T, "i!h"), tSel(n, tSub("i!h", off))), tSel(arr.T, "i!h")))
 	return Sl{Sc{n, arr.S}, "0", s.Len, s.Nil, s.Elem}
 }
